@@ -34,7 +34,8 @@ RULE = ('(derive) all pairs (derive operation, modification) over 24 derive oper
         'apply_to_all_phases / PhaseGroup.with_context / wrap) and 14 modifications (options '
         'attributes, list/dict containers, builder methods of measurement entries, running the '
         'derived or the source phase), enumerated completely; (runs) directed and seeded E1 '
-        'programs x settings executed 2-3 times, optionally preceded by a diagnosis and a '
+        'programs x settings executed 2-3 times (nested mutable metadata updated in place by a '
+        'phase; a plug constructor failing in the first run only), optionally preceded by a diagnosis and a '
         'measurement with a conditional validator keyed on it; (pair) seeded pairs of concurrent tests under '
         'yield injection; distinct = distinct case; non-trivial = a fingerprint or record '
         'comparison was made')
@@ -300,6 +301,11 @@ RUN_PROGS = [
     ([_p('a', r='T'), _p('b')], {}),
     ([_p('a', plugs=[0], m='pass'), _p('b', plugs=[0, 1])], {'start': _p('st', m='pass')}),
     ([_p('a', opts={'force_repeat': True, 'repeat_limit': 2}, m='fail')], {'sof': 'opt'}),
+    # a plug constructor that fails in the first run only (equipment absent)
+    ([_p('a', plugs=[0], m='pass'), _p('b', plugs=[0, 1])],
+     {'plugs': {'0': 'ctor_raise_once'}}),
+    ([_p('a', plugs=[1])], {'start': _p('st', plugs=[0]),
+                            'plugs': {'0': 'ctor_raise_once'}}),
 ]
 
 
@@ -387,9 +393,14 @@ def run_runs(case):
         'logs': sum(1 for l in test.test_record.log_records
                     if 'marker-from-probe' in l.message),
         'metadata': 'leak' in test.test_record.metadata,
+        'nested_metadata': (len(test.test_record.metadata['vf_nested']['hist']) +
+                            test.test_record.metadata['vf_nested']['count']['n']),
     })
     test.state['leak'] = 'from-an-earlier-run'
     test.test_record.metadata['leak'] = 'from-an-earlier-run'
+    # in-place updates of nested values the Test was declared with
+    test.test_record.metadata['vf_nested']['hist'].append('from-an-earlier-run')
+    test.test_record.metadata['vf_nested']['count']['n'] += 1
     test.logger.info('marker-from-probe')
 
   head = [probe]
@@ -413,7 +424,8 @@ def run_runs(case):
       test.measurements.vf_cond = 1
 
     head += [H.diagnose(cond_diag)(vf_diag), vf_cond]
-  t = H.Test(*(head + b.nodes))
+  t = H.Test(*(head + b.nodes), vf_nested={'hist': [], 'count': {'n': 0}})
+  plug_loggers = {cls: cls.logger for cls in b.plug_classes.values()}
   if cfg.get('sof') == 'opt':
     t.configure(stop_on_first_failure=True)
   recs = []
@@ -449,6 +461,17 @@ def run_runs(case):
       viol.append({'mechanism': 'declared-objects-mutated-by-execute',
                    'detail': {'run': i, 'diff': d}})
       break
+    if t.descriptor.metadata.get('vf_nested') != {'hist': [], 'count': {'n': 0}}:
+      viol.append({'mechanism': 'declared-metadata-mutated-by-execute',
+                   'detail': {'run': i,
+                              'now': repr(t.descriptor.metadata.get('vf_nested'))[:120]}})
+      break
+    changed = [cls.__name__ for cls, lg in plug_loggers.items()
+               if cls.logger is not lg]
+    if changed:
+      viol.append({'mechanism': 'plug-class-changed-by-execute',
+                   'detail': {'run': i, 'plugs': changed}})
+      break
     if not recs:
       viol.append({'mechanism': 'no-record', 'detail': {'run': i}})
       break
@@ -458,6 +481,9 @@ def run_runs(case):
     obs['tdiag_calls'] = sum(1 for e in b.log.events if e[2] == 'tdiag')
     obs['diag_calls'] = {'%s/%d' % k: v for k, v in sorted(b.diag_calls.items())}
     obs = scrub(obs)
+    once = 'ctor_raise_once' in (cfg.get('plugs') or {}).values()
+    if once and i == 0:
+      continue      # the transient fault belongs to the first run only
     if first is None:
       first = obs
     else:
@@ -470,7 +496,8 @@ def run_runs(case):
           break
   for i, s in enumerate(seen_at_start):
     c['marker_checks'] += 1
-    if s['state'] or s['diag'] or s['prev_meas'] or s['metadata'] or s['phases'] > (
+    if s['state'] or s['diag'] or s['prev_meas'] or s['metadata'] or \
+        s['nested_metadata'] or s['phases'] > (
         1 if cfg.get('start') else 0) or s['logs']:
       viol.append({'mechanism': 'run-did-not-start-pristine',
                    'detail': {'run': i, 'seen': s}})
